@@ -112,17 +112,20 @@ func (f *faultRWC) Write(p []byte) (int, error) {
 			k = len(p)
 		}
 		if k > 0 {
+			n, _ := f.inner.Write(p[:k])
 			f.mu.Lock()
-			f.wire = append(f.wire, p[:k]...)
+			f.wire = append(f.wire, p[:n]...)
 			f.mu.Unlock()
-			f.inner.Write(p[:k])
+			k = n
 		}
 		return k, errInjected
 	}
+	// only what the stream accepted is on the wire (a closed stream accepts nothing)
+	n, err := f.inner.Write(p)
 	f.mu.Lock()
-	f.wire = append(f.wire, p...)
+	f.wire = append(f.wire, p[:n]...)
 	f.mu.Unlock()
-	return f.inner.Write(p)
+	return n, err
 }
 
 func (f *faultRWC) Read(p []byte) (int, error) {
